@@ -89,7 +89,7 @@ pipelines:
     - task: p2a
 `
 
-func cliTargetsCase(col *Collector, focus string, dir string, targets []string, st map[string]int, form string, extra []string) {
+func cliTargetsCase(col *Collector, focus string, dir string, targets []string, st map[string]int, form string, extra, gflags, rflags []string) {
 	trace := newTracePath()
 	defer os.Remove(trace)
 	env := []string{"TRACE=" + trace}
@@ -99,9 +99,14 @@ func cliTargetsCase(col *Collector, focus string, dir string, targets []string, 
 		ok := st[n] == 0 || n == "t3" // t3 allows failure
 		oks = append(oks, fmt.Sprintf("%s:%d", n, map[bool]int{true: 1, false: 0}[ok]))
 	}
-	args := []string{"-c", filepath.Join(dir, "c07.yaml"), "--output", "raw"}
+	args := []string{"-c", filepath.Join(dir, "c07.yaml")}
+	if gflags == nil {
+		gflags = []string{"--output", "raw"}
+	}
+	args = append(args, gflags...)
 	if form == "run" {
 		args = append(args, "run")
+		args = append(args, rflags...)
 	}
 	args = append(args, targets...)
 	args = append(args, extra...)
@@ -113,7 +118,7 @@ func cliTargetsCase(col *Collector, focus string, dir string, targets []string, 
 			ran = append(ran, tok)
 		}
 	}
-	cs := Case{Tags: []string{"cli", "form=" + form, fmt.Sprintf("targets=%d", len(targets))}}
+	cs := Case{Tags: []string{"cli", "form=" + form, fmt.Sprintf("targets=%d", len(targets)), "flags=" + strings.Join(append(append([]string{}, gflags...), rflags...), " ")}}
 	cs.Line = fmt.Sprintf("cli ok=%s args=%s", strings.Join(oks, ","), strings.Join(append(append([]string{}, targets...), extra...), " "))
 	cs.Replay = fmt.Sprintf("taskctl %s  [statuses %v]", strings.Join(args, " "), st)
 	cs.Impl = fmt.Sprintf("ran=%s|exit=%d", strings.Join(ran, ","), res.exit)
@@ -171,7 +176,13 @@ func runCliTargets(col *Collector, focus, tier string, rng *rand.Rand) {
 		st      map[string]int
 		form    string
 		extra   []string
+		gflags  []string
+		rflags  []string
 	}
+	// presentation-only options: none of them may change which targets run or the exit status
+	gpool := [][]string{nil, nil, {"--raw"}, {"-o", "prefixed"}, {"--output", "cockpit"}, {"--raw", "--summary=false"}, {"--output", "raw", "-q"},
+		{"--output", "raw", "-d"}, {"--output", "prefixed", "--summary=false"}, {"-r", "-s=false"}, {"--cockpit", "--summary=false"}}
+	rpool := [][]string{nil, nil, {"--summary=false"}, {"--summary"}, {"-s=false"}}
 	var jobs []job
 	// every ordered selection of 1..3 distinct targets out of 5, with a seeded status assignment
 	var rec func(cur []string)
@@ -194,7 +205,7 @@ func runCliTargets(col *Collector, focus, tier string, rng *rand.Rand) {
 				if rng.Intn(4) == 0 { // words after `--` are never targets, even if they name one
 					extra = []string{"--", names[rng.Intn(len(names))]}
 				}
-				jobs = append(jobs, job{append([]string(nil), cur...), st, form, extra})
+				jobs = append(jobs, job{append([]string(nil), cur...), st, form, extra, gpool[rng.Intn(len(gpool))], rpool[rng.Intn(len(rpool))]})
 			}
 		}
 		if len(cur) == 3 {
@@ -214,14 +225,25 @@ func runCliTargets(col *Collector, focus, tier string, rng *rand.Rand) {
 	}
 	rec(nil)
 	// an unknown target in the middle
-	jobs = append(jobs, job{[]string{"t1", "nosuch", "t2"}, map[string]int{"t1": 0, "t2": 0, "t3": 0, "p1": 0, "p2": 0}, "root", nil})
+	jobs = append(jobs, job{[]string{"t1", "nosuch", "t2"}, map[string]int{"t1": 0, "t2": 0, "t3": 0, "p1": 0, "p2": 0}, "root", nil, nil, nil})
+	// a failing pipeline / task followed by another target, under every presentation option
+	var fixed []job
+	for _, first := range []string{"p1", "t1", "p2"} {
+		for _, g := range gpool[2:] {
+			fixed = append(fixed, job{[]string{first, "t2"}, map[string]int{"t1": 3, "t2": 0, "t3": 0, "p1": 4, "p2": 5}, "root", nil, g, nil})
+		}
+		for _, r := range rpool[2:] {
+			fixed = append(fixed, job{[]string{first, "t2"}, map[string]int{"t1": 3, "t2": 0, "t3": 0, "p1": 4, "p2": 5}, "run", nil, nil, r})
+		}
+	}
 	if tier != "thorough" {
 		rng.Shuffle(len(jobs), func(a, b int) { jobs[a], jobs[b] = jobs[b], jobs[a] })
 		if len(jobs) > 60 {
 			jobs = jobs[:60]
 		}
 	}
+	jobs = append(jobs, fixed...)
 	parallel(len(jobs), 16, func(i int) {
-		cliTargetsCase(col, focus, dir, jobs[i].targets, jobs[i].st, jobs[i].form, jobs[i].extra)
+		cliTargetsCase(col, focus, dir, jobs[i].targets, jobs[i].st, jobs[i].form, jobs[i].extra, jobs[i].gflags, jobs[i].rflags)
 	})
 }
